@@ -477,6 +477,7 @@ type Lit struct {
 	NE     int64
 	A, B   string
 	Neg    bool
+	NN     bool // Terms is a single non-negative quantity (len, unsigned)
 }
 
 const (
@@ -519,20 +520,39 @@ func (l Lit) Not() []Lit {
 		l.Neg = !l.Neg
 		return []Lit{l}
 	case "int":
-		if l.IsNE {
-			return []Lit{{Kind: "int", Terms: l.Terms, Lo: l.NE, Hi: l.NE}}
+		var n Lit
+		switch {
+		case l.IsNE:
+			n = Lit{Kind: "int", Terms: l.Terms, Lo: l.NE, Hi: l.NE, NN: l.NN}
+		case l.Lo == l.Hi:
+			n = Lit{Kind: "int", Terms: l.Terms, IsNE: true, NE: l.Lo, NN: l.NN}
+		case l.Lo <= negInf || (l.NN && l.Lo <= 0):
+			n = Lit{Kind: "int", Terms: l.Terms, Lo: l.Hi + 1, Hi: posInf, NN: l.NN}
+		case l.Hi >= posInf:
+			n = Lit{Kind: "int", Terms: l.Terms, Lo: negInf, Hi: l.Lo - 1, NN: l.NN}
+		default:
+			return nil
 		}
-		if l.Lo == l.Hi {
-			return []Lit{{Kind: "int", Terms: l.Terms, IsNE: true, NE: l.Lo}}
-		}
-		if l.Lo <= negInf {
-			return []Lit{{Kind: "int", Terms: l.Terms, Lo: l.Hi + 1, Hi: posInf}}
-		}
-		if l.Hi >= posInf {
-			return []Lit{{Kind: "int", Terms: l.Terms, Lo: negInf, Hi: l.Lo - 1}}
-		}
+		return []Lit{n.clampNN()}
 	}
 	return nil
+}
+
+// clampNN intersects with [0,∞) when the quantity is known non-negative.
+func (l Lit) clampNN() Lit {
+	if !l.NN || l.Kind != "int" {
+		return l
+	}
+	if l.IsNE {
+		if l.NE == 0 {
+			return Lit{Kind: "int", Terms: l.Terms, Lo: 1, Hi: posInf, NN: true}
+		}
+		return l
+	}
+	if l.Lo < 0 {
+		l.Lo = 0
+	}
+	return l
 }
 
 // Implies: whenever l holds, r holds.
@@ -617,13 +637,8 @@ func intLit(lin Lin, op token.Token) (Lit, bool) {
 	}
 	// single non-negative term with coefficient 1: intersect with [0,∞)
 	if len(ks) == 1 && t.T[ks[0]] == 1 && lin.nn[ks[0]] {
-		if l.IsNE {
-			if l.NE == 0 {
-				l = Lit{Kind: "int", Terms: terms, Lo: 1, Hi: posInf}
-			}
-		} else if l.Lo < 0 {
-			l.Lo = 0
-		}
+		l.NN = true
+		l = l.clampNN()
 	}
 	return l, true
 }
